@@ -1081,7 +1081,53 @@ def c09_session(live, rng, heal_at=None, origin=None, params=None, random_close=
     return S
 
 
-def c09_heal(S, rng, todo, want, random_close=False, heal_at=0, max_ops=25000):
+def c09_stall_session(live, rng, stall_ms, params=None, origin=None):
+    """the network never loses anything; the only adversity is a reader (r) that does not read for `stall_ms` while the
+    writer has far more data than r's receive buffer, so the receive window closes "for a while"; then the loss-free
+    suffix of c09_heal.  Oracle (oracle_c09): no error closure at all is acceptable here."""
+    S = Sess(live, rng)
+    if not start_pair(S, rng, origin, params):
+        return S
+    t_start = S.now
+    S.sockop("l", "ptcp connect l", "connect")
+    rb = (params or {}).get("rcvbuf_r", 4096)
+    want = {"l": rb * rng.choice([3, 10, 40]), "r": 0}
+    todo = dict(want)
+    guard = 0
+    while S.alive() and (S.now - t_start) % M32 < stall_ms and guard < 4000:
+        guard += 1
+        n = 0
+        while S.alive() and (S.net["l"] or S.net["r"]) and n < 200:
+            net_step(S, rng, lossy=False)
+            n += 1
+        if todo["l"] > 0:
+            d = S.send("l", min(chunk(rng), todo["l"]), rng.randrange(256))
+            if d and d["ret"] > 0:
+                todo["l"] -= d["ret"]
+                continue
+        dl = {}
+        for x in ("l", "r"):
+            d = S.next(x)
+            if d and d["ret"] == 1:
+                dl[x] = (int(d["x"]) - S.now) % M32
+        if not dl:
+            S.t(S.now + 1000)
+            continue
+        x = min(dl, key=dl.get)
+        step = dl[x] if 0 < dl[x] <= 70000 else 1
+        left = stall_ms - (S.now - t_start) % M32
+        if step > left:
+            S.t(S.now + left)          # the reader resumes before the next deadline: no clock notification yet
+            break
+        S.t(S.now + step)
+        S.clock(x)
+    c09_heal(S, rng, todo, want, False, stall_ms, passive=("r",))
+    if getattr(S, "c09", None):
+        S.c09["stall_only"] = stall_ms
+    return S
+
+
+def c09_heal(S, rng, todo, want, random_close=False, heal_at=0, max_ops=25000, passive=()):
     """the loss-free suffix of a C09 run (see c09_session); fills S.c09"""
     # ---- healing: from here on nothing is lost and the readers keep reading
     t_heal = S.now
@@ -1151,7 +1197,9 @@ def c09_heal(S, rng, todo, want, random_close=False, heal_at=0, max_ops=25000):
                     S.close(s, 0)
                     close_done[s] = True
             elif fa:
-                if not shut_done[s] and todo[s] == 0 and stt in ("ESTABLISHED", "CLOSE-WAIT"):
+                # (a `passive` application is a pure reader: it keeps its write side open until it has read everything)
+                if not shut_done[s] and todo[s] == 0 and stt in ("ESTABLISHED", "CLOSE-WAIT") and \
+                        (s not in passive or peer_done):
                     S.shut(s, "wr")
                     shut_done[s] = True
                 elif shut_done[s] and peer_done and (shut_done[o] or Q[o]["st"] not in ("ESTABLISHED",)):
@@ -1206,6 +1254,13 @@ def oracle_c09(S):
     c = getattr(S, "c09", None)
     if not c or not c.get("healed"):
         return None
+    if c.get("stall_only") is not None and any(c["errcb"].values()) and \
+            (c["read"]["r"] != c["sent"]["l"] or c["todo"]["l"] != 0):
+        # (a reset reported to one side during the closing handshake, after every byte was delivered, is the accepted
+        #  error-closure outcome of the general case; here the transfer itself was cut short)
+        return (f"error closure {c['errcb']} cut the transfer short on a network that never lost a segment: the reader only stalled for "
+                f"{c['stall_only']} ms (receive window closed for a while) and then kept reading (read={c['read']}, "
+                f"sent={c['sent']}, never accepted={c['todo']})")
     if c["end"] != "done":
         return f"no completion and no error closure after healing: end={c['end']} after {c['steps']} steps / {c['elapsed']} ms " \
                f"(closed={c['closed']}, errors={c['errcb']}, read={c['read']}, sent={c['sent']})"
